@@ -89,6 +89,86 @@ def check_case(res, T, v, bt=None):
         res.sample(C.sample_of(T, v, der_hex=der.hex()[:160], rewrites=n, last_rewrite=(kind, x.hex()[:160])))
 
 
+# ------------------------------------------------------------------ inside resolved open types
+
+def _tlv(cls, num, cons, content):
+    return R.ident(cls, num, cons) + R.length_min(len(content)) + content
+
+
+def opentype_outer(container, govkind, shape, anytag, g, inner_encodings):
+    """DER of  SEQUENCE/SET { gov [PRIVATE 1000] IMPLICIT <int|oid>, blob <ANY / SEQUENCE OF ANY / SET OF ANY> }  with
+    the given octet strings standing where the inner values go (the same layout props/c18.make_schema declares)."""
+    gov = _tlv('P', 1000, False, R.int_content(g) if govkind == 'int' else R.oid_content(g))
+
+    def wrap(x):
+        return x if anytag == 'untagged' else _tlv('P', 1002, True, x)
+    items = [wrap(x) for x in inner_encodings]
+    if shape == 'single':
+        blob = items[0]
+    elif shape == 'seqof':
+        blob = _tlv('U', 16, True, b''.join(items))
+    else:
+        blob = _tlv('U', 17, True, b''.join(sorted(items)))
+    members = [gov, blob]
+    if container == 'set':
+        members.sort(key=lambda m: R.tag_sort_key(R.first_tag(m)))
+    return _tlv('U', 16 if container == 'seq' else 17, True, b''.join(members))
+
+
+def check_opentype(res, rng, tier):
+    """A non-canonical element INSIDE the value of an open type: with resolution on, the DER (CER) decoder decodes
+    that value too and has to refuse it there as everywhere else."""
+    from . import c18
+    container = rng.choice(['seq', 'set'])
+    govkind = rng.choice(['int', 'oid'])
+    shape = rng.choice(['single', 'seqof', 'setof'])
+    anytag = rng.choice(['untagged', 'implicit', 'explicit'])
+    if container == 'set' and anytag == 'untagged':
+        anytag = 'explicit'
+    o = C.opts_for(tier, rng, allow_any=False, depth=2, big_strings=False)
+    Tin = U.gen_type(rng, o, depth=rng.choice([0, 1, 2]))
+    vin = U.gen_value(rng, Tin, o, small=True)
+    try:
+        B.schema(Tin)
+        inner = R.der(Tin, vin)
+    except Exception:
+        return
+    g = c18.gov_value(govkind, 0)
+    other = ('null',) if U.base_of(Tin)[0] != 'null' else ('bool',)
+    tmap = [(g, Tin), (c18.gov_value(govkind, 1), other)]
+    schema = c18.make_schema(container, govkind, shape, anytag, tmap)
+    n_items = 1 if shape == 'single' else 2
+    good = opentype_outer(container, govkind, shape, anytag, g, [inner] * n_items)
+    try:
+        d, rest = der_decoder.decode(good, asn1Spec=schema, decodeOpenTypes=True)
+        if rest:
+            raise ValueError('remainder')
+    except Exception:
+        res.see('skipped:open-type-original-not-accepted')     # C18's business (pinned findings of the inner value)
+        return
+    res.see('open-type-originals-accepted')
+    for kind, depth, tagging, x in R.rewrites(Tin, inner):
+        decs = [('DER', der_decoder)]
+        if kind == 'bool':
+            decs.append(('CER', cer_decoder))
+        # one element rewritten (the last one, when there are two)
+        bad = opentype_outer(container, govkind, shape, anytag, g, [inner] * (n_items - 1) + [x])
+        for dname, dec in decs:
+            case = ('c15-open', container, govkind, shape, anytag, Tin, vin, kind, x.hex(), dname)
+            feats = {'rewrite:' + kind, 'tagging:' + tagging, 'decoder:' + dname, 'depth:%d' % min(depth + 2, 4),
+                     'inside-open-type', 'shape:' + shape, 'anytag:' + anytag, 'container:' + container}
+            res.case(U.case_hash(bad, dname, 'open'), True)
+            res.see('rewrites-inside-open-type:%s:%s:%s' % (kind.split('-')[0], shape, dname))
+            try:
+                r = dec.decode(bad, asn1Spec=schema, decodeOpenTypes=True)
+                res.witness('accepted:%s:%s' % (dname.lower(), kind), feats, case, repr(r[0])[:200])
+            except error.PyAsn1Error:
+                res.see('rejected')
+            except Exception as ex:
+                c = H.classify_exception(ex)
+                res.witness('leak:%s' % c[1], feats, case, ex)
+
+
 def run_shard(shard, tier, seed):
     res = H.Result(ID)
     rng = C.rng_for(seed, ID, shard['shard'])
@@ -98,6 +178,8 @@ def run_shard(shard, tier, seed):
             break
         T, v = C.gen_case(rng, tier)
         try:
+            if i % 5 == 4:
+                check_opentype(res, rng, tier)
             check_case(res, T, v)
         except Exception:
             res.see('harness:error')
@@ -108,6 +190,22 @@ def run_shard(shard, tier, seed):
 
 def replay(case):
     res = H.Result(ID)
+    if case[0] == 'c15-open':
+        from . import c18
+        _, container, govkind, shape, anytag, Tin, vin, kind, xh, dname = case
+        g = c18.gov_value(govkind, 0)
+        other = ('null',) if U.base_of(Tin)[0] != 'null' else ('bool',)
+        schema = c18.make_schema(container, govkind, shape, anytag, [(g, Tin), (c18.gov_value(govkind, 1), other)])
+        n_items = 1 if shape == 'single' else 2
+        inner = R.der(Tin, vin)
+        bad = opentype_outer(container, govkind, shape, anytag, g, [inner] * (n_items - 1) + [bytes.fromhex(xh)])
+        dec = der_decoder if dname == 'DER' else cer_decoder
+        try:
+            r = dec.decode(bad, asn1Spec=schema, decodeOpenTypes=True)
+            res.witness('accepted:%s:%s' % (dname.lower(), kind), {'inside-open-type'}, case, repr(r[0])[:200])
+        except error.PyAsn1Error:
+            pass
+        return res
     _, T, v, kind, xh, dname, spec_mode = case
     check_case(res, T, v)
     res.witnesses = [w for w in res.witnesses if ("'%s', '%s', '%s')" % (xh, dname, spec_mode)) in w['case']]
